@@ -668,3 +668,31 @@ func init() {
 }
 
 var bunLastRaw value
+
+
+func init() {
+	// time.After: a duration <= 0 is ready at once; otherwise the channel delivers when every logical thread is blocked
+	// (time only passes at quiescence: timers delay, they never reorder what can already happen).
+	intrinsics["time.After"] = func(fr *frame, a []value) value {
+		X.timeType = fr.i.namedType("time", "Time")
+		c := makeChan(1)
+		if asInt64(a[0]) <= 0 {
+			c.buf = append(c.buf, zero(X.timeType))
+		} else {
+			c.timer = true
+			X.sched().timers = append(X.sched().timers, c)
+		}
+		return c
+	}
+	intrinsics["math/rand.Int63n"] = func(fr *frame, a []value) value { return int64(0) }
+	harnessAPI["verifBackground"] = func(fr *frame, a []value) value {
+		X.sched().noBackground = !a[0].(bool)
+		return nil
+	}
+	// verifYieldChoice(true): goroutines of the code under test still run eagerly, except that at an explicit verifYield
+	// the next thread is a decision among all runnable threads
+	harnessAPI["verifYieldChoice"] = func(fr *frame, a []value) value {
+		X.sched().choiceAtYields = a[0].(bool)
+		return nil
+	}
+}
